@@ -74,7 +74,7 @@ def run(ctx, chk):
         engine = ['interpreter::run_code_block', 'interpreter::run_next_op', 'cache::CodeCache::call',
                   'cache::CodeCache::translate_code_block', 'cache::CodeCache::get_address_for_ip', 'mem::can_dynarec',
                   'mem::MemoryAreas::as_ptr']
-        ip = absint.Interp(facts, opaque=[GCC, MRC, HI] + [e for e in engine if e in facts['functions']],
+        ip = absint.Interp(facts, opaque=[GCC, MRC, IRC, HI] + [e for e in engine if e in facts['functions']],
                            trust_asserts=('overflow',))
         delivered_args = []
         for fn in (CORE + 'run_code_block', CORE + 'run_interp'):
@@ -308,7 +308,7 @@ def _syms(t, out=None):
 
 def suspended_steps(chk, cfg, facts, file):
     steps = [CORE + 'run_interp', CORE + 'run_code_block']
-    ipu = absint.Interp(facts, opaque=steps + [HI, MRC])
+    ipu = absint.Interp(facts, opaque=steps + [HI, MRC, IRC])      # a direct device tick is reported by C09.5, not followed
     st = ipu.new_state()
     core = ipu.arg_object(st, 'core')
     rs = ipu.run(CORE + 'update', [core], st)
@@ -324,6 +324,10 @@ def suspended_steps(chk, cfg, facts, file):
             nrun += 1            # the step function delivers its own time (rule 2)
             continue
         nsusp += 1
+        if MRC not in cn and IRC in cn:
+            bad = bad or 'a suspended step hands its clocks to IO::run_clock_cycles directly, bypassing ' \
+                         'MemoryAreas::run_clock_cycles: the OAM DMA engine gets no time while the CPU is halted or stopped'
+            continue
         if MRC not in cn:
             bad = bad or 'a path of Core::update on which no instruction runs delivers no clocks to the devices (time stands ' \
                          'still while the CPU is suspended; run_frame cannot terminate)'
